@@ -204,7 +204,9 @@ class Lexer:
 
     def t_RPAR(self, token):
         r'\)'
-        token.lexer.pop_state()
+        if token.lexer.lexstatestack:
+            token.lexer.pop_state()
+        # else: unbalanced ')'. The parser reports it as an unexpected token.
         return token
 
     def t_ANY_BOOLEAN(self, token):
